@@ -114,15 +114,19 @@ PairOK(a, b) == LET dx == b[1] - a[1]
                     dy == b[2] - a[2]
                 IN /\ dx % 2 = 0 /\ dy % 2 = 0
                    /\ \E n \in 0..64 : 4 * n * n = dx * dx + dy * dy
-Init1 == inst \in [nx : Grids1, ny : Grids1, p0 : Pts, p1 : Pts, rad : Rads,
-                   fac : Facs, mnr : Mnrs, foci : BOOLEAN,
-                   method : {"midpoint", "prism", "cylinder"}]
+(* Init chooses the geometry, one step the ellipse settings and the method: *)
+(* the laws are evaluated on the successor states, by all TLC workers       *)
+Init1 == inst \in [nx : Grids1, ny : Grids1, p0 : Pts, p1 : Pts, ready : {FALSE}]
          /\ PairOK(inst.p0, inst.p1)
-Spec1 == Init1 /\ [][UNCHANGED inst]_inst
+Next1 == /\ ~inst.ready
+         /\ \E r \in Rads, f \in Facs, m \in Mnrs, fo \in BOOLEAN,
+               me \in {"midpoint", "prism", "cylinder"} :
+              inst' = [nx |-> inst.nx, ny |-> inst.ny, p0 |-> inst.p0, p1 |-> inst.p1,
+                       rad |-> r, fac |-> f, mnr |-> m, foci |-> fo, method |-> me,
+                       ready |-> TRUE]
+Spec1 == Init1 /\ [][Next1]_inst
 
-(* written on cross-multiplied integers: sum of areas of the support equals *)
-(* the common denominator *)
-SumOne ==
+SumOne == inst.ready =>
   LET M == RefMask(inst)
       Sp == Support(inst, M)
       g(e) == Area(inst, e)
@@ -131,16 +135,16 @@ SumOne ==
      /\ \A c \in Cells(inst) : QLeq(<<0, 1>>, RefW(inst, M, c))
      /\ IF inst.method = "midpoint" \/ M = {} THEN Cardinality(Sp) = 1
         ELSE \A c \in Sp : RefW(inst, M, c)[1] * tot = Area(inst, c) * RefW(inst, M, c)[2]
-CylinderInPrism ==
+CylinderInPrism == inst.ready =>
   LET M == RefMask(inst) IN M # {} => (M \subseteq BBox(M) /\ BBox(M) \subseteq Cells(inst))
 (* a cell centred on one of the two points or on the midpoint is selected   *)
-ContainsPoints ==
+ContainsPoints == inst.ready =>
   \A c \in Cells(inst) :
      LET x == Cx(inst, c[1])
          y == Cy(inst, c[2])
      IN (<<x, y>> = inst.p0 \/ <<x, y>> = inst.p1 \/ <<x, y>> = <<MidX(inst), MidY(inst)>>)
           => c \in RefMask(inst)
-MidCellContains ==
+MidCellContains == inst.ready =>
   LET c == MidCell(inst)
       x2 == inst.p0[1] + inst.p1[1]
   IN /\ c \in Cells(inst)
